@@ -1,6 +1,6 @@
 /-
   Line-protocol driver for the zip model (prefix `zip.`).  Decode, call the model, encode.
-  File token:   <path>:<mode r|d|s|i|e>:<size>:<content>:<g 0|1>     (hex path/content)
+  File token:   <path>:<mode r|d|s|i|e>:<size>:<content>:<g 0|1>     (hex path; content hex or z<N> = N zero bytes)
   Entry token:  <name>:<declared size>:<content>[:<header mode letter>]
   The executable environment plugs module.CheckFilePath / module.Check / CanonicalVersion from the
   module and semver models and `strToFold` over the committed fold table.
@@ -22,6 +22,13 @@ def realEnv : Env where
      | .ok _ => true
      | .error _ => false)
 
+/-- contents on the line: hex, or `z<N>` for N zero bytes (so that contents of 16 MiB stay short). -/
+def hxC (s : String) : Option Bytes :=
+  if s.startsWith "z" then (s.drop 1).toNat?.map (fun n => List.replicate n 0) else hx s
+
+def xhC (c : Bytes) : String :=
+  if c.length ≥ 4096 && c.all (· == 0) then "z" ++ toString c.length else xh c
+
 def parseMode : String → Option Mode
   | "r" => some .regular
   | "d" => some .dir
@@ -36,7 +43,7 @@ def parseFile (tok : String) : Option FileInfo :=
     let p ← hx p
     let m ← parseMode m
     let sz ← sz.toInt?
-    let c ← hx c
+    let c ← hxC c
     let g ← (if g == "1" then some true else if g == "0" then some false else none)
     pure ⟨p, m, sz, c, g⟩
   | _ => none
@@ -49,14 +56,14 @@ def parseEntry (tok : String) : Option Entry :=
   | [n, sz, c] => do
     let n ← hx n
     let sz ← sz.toNat?
-    let c ← hx c
+    let c ← hxC c
     pure ⟨n, sz, c⟩
   -- optional 4th field: mode bits of the header.  zip.go never looks at them (a directory entry is a
   -- name with a trailing slash), so the model's `Entry` has no such field and the token is dropped.
   | [n, sz, c, _mode] => do
     let n ← hx n
     let sz ← sz.toNat?
-    let c ← hx c
+    let c ← hxC c
     pure ⟨n, sz, c⟩
   | _ => none
 
@@ -97,7 +104,7 @@ def createErrStr : CreateErr → String
   | .contentLarger => "err:contentlarger" | .nameTooLong => "err:nametoolong"
 
 def showEntries (es : List Entry) : String :=
-  if es.isEmpty then "_" else ",".intercalate (es.map fun e => xh e.name ++ "=" ++ xh e.content)
+  if es.isEmpty then "_" else ",".intercalate (es.map fun e => xh e.name ++ "=" ++ xhC e.content)
 
 def showCreate : Except CreateErr (List Entry) → String
   | .ok es => "ok " ++ showEntries es
